@@ -110,9 +110,18 @@ class AppNet:
             sock.reset = True
             self.sched.ev("srv", cid=sock.cid, kind="reset")
         else:
-            sock.buf += data
+            sock.feed(data)
             if abstract is not None:
                 self.sched.ev("srv", cid=sock.cid, **abstract)
+
+    def deliver_many(self, sock, chunks):
+        """several frames written by the server at once: one segment, one TLS record"""
+        if sock.closed:
+            return
+        sock.feed(b"".join(b for b, a in chunks))
+        for b, a in chunks:
+            if a is not None:
+                self.sched.ev("srv", cid=sock.cid, **a)
 
     def client_wrote(self, sock, d):
         cid = sock.cid
@@ -128,7 +137,7 @@ class AppNet:
                 status = sc.get("status", 101)
                 if status == 101:
                     self.sched.ev("dial", cid=cid, outcome="established")
-                    sock.buf += wire.response_head(key)
+                    sock.feed(wire.response_head(key))
                     t = self.sched.now
                     for delay, item in sc.get("events", []):
                         t += delay / 1000.0
@@ -141,13 +150,13 @@ class AppNet:
                             for it in item[1]:
                                 chunks += sframe_items(it)
                             # one segment: all bytes at once, abstract events in order
-                            self.sched.at(t, lambda s=sock, ch=chunks: [self.deliver(s, b, a) for b, a in ch])
+                            self.sched.at(t, lambda s=sock, ch=chunks: self.deliver_many(s, ch))
                         else:
                             for b, a in sframe_items(item):
                                 self.sched.at(t, lambda s=sock, b=b, a=a: self.deliver(s, b, a))
                 else:
                     self.sched.ev("dial", cid=cid, outcome="rejected")
-                    sock.buf += b"HTTP/1.1 %d Nope\r\n\r\n" % status
+                    sock.feed(b"HTTP/1.1 %d Nope\r\n\r\n" % status)
             return
         frames = []
         while True:
@@ -269,6 +278,7 @@ def run_app(sc, schedule=None, seed=None, line_preempt=None):
     from websocket._abnf import ABNF
     sched = schedworld.Sched(schedule=schedule, seed=seed, max_steps=sc.get("max_steps", 60000))
     net = AppNet(sched, [dict(c) for c in sc["conns"]], tls=bool(sc.get("tls")))
+    net.send_delay = (sc.get("send_delay_ms") or 0) / 1000.0
     undo = schedworld.install(sched, net)
     counts = {}
     cbs = sc.get("callbacks", ALL_CBS)
